@@ -13,6 +13,7 @@ package main
 import (
 	"fmt"
 	"net"
+	"os"
 	"strings"
 	"syscall"
 	"testing"
@@ -47,21 +48,23 @@ func vfWaitSinks(d time.Duration) []vfRecv {
 }
 
 type vfWiring struct {
-	t    *testing.T
-	tr   *vfTrace
-	g    *vfGamma
-	id   string
-	recv bool
-	udp  int
-	tcp  int
-	nreq int
+	branches map[string]bool
+	keep     bool
+	t        *testing.T
+	tr       *vfTrace
+	g        *vfGamma
+	id       string
+	recv     bool
+	udp      int
+	tcp      int
+	nreq     int
 }
 
 func (w *vfWiring) reset(id string, recv bool, udp, tcp int) {
 	w.id, w.recv, w.udp, w.tcp = id, recv, udp, tcp
 	la := w.g.ip("10.0.0.1")
 	all := vfM{"p1.t1": vfM{"lid": "p1.t1", "proto": "UDP", "addr": la, "port": udp}, "p1.t2": vfM{"lid": "p1.t2", "proto": "TCP", "addr": la, "port": tcp}}
-	w.tr.Emit(vfM{"ev": "reset", "case": id, "cfg": vfM{"keep": false, "names": vfNameRecs(), "static": []vfM{}, "all": all,
+	w.tr.Emit(vfM{"ev": "reset", "case": id, "cfg": vfM{"keep": w.keep, "names": vfNameRecs(), "static": []vfM{}, "all": all,
 		"proxies": []vfM{{"trans": []string{"p1.t1", "p1.t2"}, "mustrr": false, "recv": recv}}}})
 }
 
@@ -89,7 +92,36 @@ func (w *vfWiring) emit(cls, lid string, srcIP string, srcPort int, raw []byte, 
 	}
 	for _, rv := range got {
 		am := vfAlpha(rv.raw)
-		outs = append(outs, vfM{"kind": "sink", "addr": fmt.Sprintf("%s:%d", rv.ip, rv.port), "ip": rv.ip, "port": rv.port, "proto": rv.proto, "msg": am, "cookie": true, "fresh": true})
+		// the branch of the top Via of what was relayed: RFC 3261 cookie, and never seen before in this run - whichever
+		// listener / Proxy object of whichever service stamped it
+		cookie, fresh := true, true
+		inTop := ""
+		for _, h := range in.Hdrs {
+			if h.Cls == "via" && len(h.Ents) > 0 {
+				for _, p := range h.Ents[0].Params {
+					if p[0] == "branch" {
+						inTop = p[1]
+					}
+				}
+				break
+			}
+		}
+		for _, h := range am.Hdrs {
+			if h.Cls == "via" && len(h.Ents) > 0 {
+				for _, p := range h.Ents[0].Params {
+					if p[0] == "branch" && p[1] != inTop {
+						cookie = strings.HasPrefix(p[1], "z9hG4bK")
+						if w.branches == nil {
+							w.branches = map[string]bool{}
+						}
+						fresh = !w.branches[p[1]]
+						w.branches[p[1]] = true
+					}
+				}
+				break
+			}
+		}
+		outs = append(outs, vfM{"kind": "sink", "addr": fmt.Sprintf("%s:%d", rv.ip, rv.port), "ip": rv.ip, "port": rv.port, "proto": rv.proto, "msg": am, "cookie": cookie, "fresh": fresh})
 		for _, h := range am.Hdrs {
 			for _, e := range h.Ents {
 				add(e.Host)
@@ -112,11 +144,11 @@ func TestVfWiring(t *testing.T) {
 	g := &vfGamma{base: vfIPBase(), rnd: vfRand(7)}
 	w := &vfWiring{t: t, tr: tr, g: g}
 	la := g.ip("10.0.0.1")
-	ubk := vfAllSinks.get(t, g.ip("10.0.4.1"), 5060) // UDP backend
-	tbk := vfAllSinks.get(t, g.ip("10.0.4.2"), 5060) // TCP backend
-	vfAllSinks.get(t, g.ip("10.0.1.1"), 5070)        // UDP next hop
+	ubk := vfAllSinks.get(t, g.ip("10.0.4.1"), 5060)  // UDP backend
+	tbk := vfAllSinks.get(t, g.ip("10.0.4.2"), 5060)  // TCP backend
+	vfAllSinks.get(t, g.ip("10.0.1.1"), 5070)         // UDP next hop
 	thop := vfAllSinks.get(t, g.ip("10.0.1.2"), 5060) // TCP next hop
-	vfAllSinks.get(t, g.ip("10.0.2.1"), 5062)        // the address the clients announce in their Via
+	vfAllSinks.get(t, g.ip("10.0.2.1"), 5062)         // the address the clients announce in their Via
 	_ = ubk
 	ncase := 0
 	for ci, noRecv := range []string{"no-received: false", "no-received: true", ""} {
@@ -288,6 +320,114 @@ func TestVfWiring(t *testing.T) {
 			syscall.Write(hfd, raw)
 			w.emit("tcp-nexthop-conn"+rp, "p1.t2", thop.ip, thop.port, raw, vfWaitSinks(2*time.Second))
 		}
+		ncase++
+	}
+	// (d) one service with SEVERAL listeners whose no-received values differ, in both orders: the option is per listener
+	for mi, flags := range [][]string{{"no-received: true", ""}, {"", "no-received: true"}, {"no-received: false", "no-received: true", "no-received: false"}} {
+		var y strings.Builder
+		fmt.Fprintf(&y, "proxies:\n- name: multi%d.example.com\n  listens:\n", mi)
+		type lp struct {
+			udp, tcp int
+			recv     bool
+		}
+		var ls []lp
+		for _, f := range flags {
+			l := lp{vfFreePort(t, la), vfFreePort(t, la), f != "no-received: true"}
+			ls = append(ls, l)
+			fmt.Fprintf(&y, "  - address: %s\n    udp-port: %d\n    tcp-port: %d\n    %s\n    backends:\n    - udp://%s:5060\n", la, l.udp, l.tcp, f, g.ip("10.0.4.1"))
+		}
+		cfg, err := loadConfigFromReader(strings.NewReader(y.String()))
+		if err != nil {
+			t.Fatalf("VF-INFRA yaml: %v\n%s", err, y.String())
+		}
+		for _, pc := range cfg.Proxies {
+			if err := startProxy(pc, createPreConfigRoute(pc), createPreConfigHostResolver(cfg.Hosts, pc)); err != nil {
+				t.Fatalf("VF-INFRA startProxy: %v", err)
+			}
+		}
+		time.Sleep(50 * time.Millisecond)
+		announce := fmt.Sprintf("%s:5062", g.ip("10.0.2.1"))
+		for li, l := range ls {
+			w.reset(fmt.Sprintf("wiring-multi%d-listener%d-%v", mi, li, l.recv), l.recv, l.udp, l.tcp)
+			cli, err := net.ListenUDP("udp", &net.UDPAddr{IP: net.ParseIP(g.ip("10.0.5.5")), Port: 0})
+			if err != nil {
+				t.Fatalf("VF-INFRA %v", err)
+			}
+			cport := cli.LocalAddr().(*net.UDPAddr).Port
+			for i, rp := range []string{"", ";rport", ";rport=9;received=1.2.3.4"} {
+				raw := w.request(fmt.Sprintf("sip:alice@multi%d.example.com", mi), "", "UDP", announce, rp, 2000+10*li+i)
+				vfAllSinks.pollAll()
+				cli.WriteToUDP(raw, &net.UDPAddr{IP: net.ParseIP(la), Port: l.udp})
+				w.emit("multi-listener"+rp, "p1.t1", g.ip("10.0.5.5"), cport, raw, vfWaitSinks(2*time.Second))
+			}
+			cli.Close()
+			ncase++
+		}
+	}
+	fmt.Printf("VF cases=%d events=%d\n", ncase, tr.n)
+}
+
+// Driver for the configuration wiring of C13: the service's keep-next-hop-route setting as it is spelled in the YAML
+// (or, when the key is absent, in the KEEP_NEXT_HOP_ROUTE environment variable): true / yes / 1 / on / t / y in any
+// letter case mean "relay the entry that names the next hop", anything else "strip it".  Objects are created by
+// loadConfigFromReader + startProxy; a request with the Route set  <listener>, <next hop>, <further>  arrives at the real
+// UDP listener and is observed at the next hop's socket.
+func TestVfKeepWiring(t *testing.T) {
+	tr := vfOpenTrace(t, "VERIF_TRACE")
+	defer tr.Close()
+	g := &vfGamma{base: vfIPBase(), rnd: vfRand(13)}
+	w := &vfWiring{t: t, tr: tr, g: g}
+	la := g.ip("10.0.0.1")
+	vfAllSinks.get(t, g.ip("10.0.1.1"), 5070) // the next hop
+	vfAllSinks.get(t, g.ip("10.0.4.1"), 5060) // the backend
+	type sp struct {
+		yaml, env string
+		keep      bool
+	}
+	cases := []sp{{"true", "", true}, {"yes", "", true}, {"\"1\"", "", true}, {"\"on\"", "", true}, {"t", "", true}, {"\"y\"", "", true}, {"\"YES\"", "", true}, {"\"On\"", "", true}, {"tRuE", "", true}, {"\"Y\"", "", true},
+		{"false", "", false}, {"\"no\"", "", false}, {"\"0\"", "", false}, {"\"off\"", "", false}, {"\"\"", "", false}, {"nope", "", false},
+		{"", "", false}, {"", "yes", true}, {"", "ON", true}, {"", "1", true}, {"", "false", false}, {"\"no\"", "yes", false}, {"\"yes\"", "no", true}}
+	ncase := 0
+	for ci, c := range cases {
+		udp, tcp := vfFreePort(t, la), vfFreePort(t, la)
+		key := ""
+		if c.yaml != "" {
+			key = "  keepNextHopRoute: " + c.yaml + "\n"
+		}
+		y := fmt.Sprintf("proxies:\n- name: keep%d.example.com\n%s  listens:\n  - address: %s\n    udp-port: %d\n    tcp-port: %d\n    backends:\n    - udp://%s:5060\n", ci, key, la, udp, tcp, g.ip("10.0.4.1"))
+		if c.env != "" {
+			os.Setenv("KEEP_NEXT_HOP_ROUTE", c.env)
+		} else {
+			os.Unsetenv("KEEP_NEXT_HOP_ROUTE")
+		}
+		cfg, err := loadConfigFromReader(strings.NewReader(y))
+		if err != nil {
+			t.Fatalf("VF-INFRA yaml: %v\n%s", err, y)
+		}
+		for _, pc := range cfg.Proxies {
+			if err := startProxy(pc, createPreConfigRoute(pc), createPreConfigHostResolver(cfg.Hosts, pc)); err != nil {
+				t.Fatalf("VF-INFRA startProxy: %v", err)
+			}
+		}
+		os.Unsetenv("KEEP_NEXT_HOP_ROUTE")
+		time.Sleep(30 * time.Millisecond)
+		w.keep = c.keep
+		w.reset(fmt.Sprintf("keepwiring%d-yaml[%s]-env[%s]", ci, strings.Trim(c.yaml, "\""), c.env), true, udp, tcp)
+		cli, err := net.ListenUDP("udp", &net.UDPAddr{IP: net.ParseIP(g.ip("10.0.5.5")), Port: 0})
+		if err != nil {
+			t.Fatalf("VF-INFRA %v", err)
+		}
+		cport := cli.LocalAddr().(*net.UDPAddr).Port
+		for i, route := range []string{
+			fmt.Sprintf("<sip:%s:%d;lr>, <sip:%s:5070;lr>, <sip:%s:5080;lr>", la, udp, g.ip("10.0.1.1"), g.ip("10.0.1.7")),
+			fmt.Sprintf("<sip:%s:5070;lr>, \"D\" <sip:u@%s:5080;x=1;lr>;hp=2", g.ip("10.0.1.1"), g.ip("10.0.1.7")),
+			fmt.Sprintf("<sip:%s:5070;lr>", g.ip("10.0.1.1"))} {
+			raw := w.request(fmt.Sprintf("sip:bob@elsewhere%d.example", ci), route, "UDP", fmt.Sprintf("%s:5062", g.ip("10.0.2.1")), "", 3000+i)
+			vfAllSinks.pollAll()
+			cli.WriteToUDP(raw, &net.UDPAddr{IP: net.ParseIP(la), Port: udp})
+			w.emit("keep-wiring", "p1.t1", g.ip("10.0.5.5"), cport, raw, vfWaitSinks(2*time.Second))
+		}
+		cli.Close()
 		ncase++
 	}
 	fmt.Printf("VF cases=%d events=%d\n", ncase, tr.n)
